@@ -247,13 +247,12 @@ def ph4 (s : St) : Except Err St :=
   else
     .ok s
 
+/-- the state at the start of an iteration, after `c = source[index]` -/
+def pre (s : St) (c : Int) : St := { s with v18 := false, v8 := false, v9 := false, v19 := c }
+
 theorem body_split (fuel : Nat) (s : St) : fast_csv_reader.body_L2 fuel s =
-    (let s := { s with v18 := false }
-     let s := { s with v8 := false }
-     let s := { s with v9 := false }
-     bindE (idxE s.p0 s.v2 "p0[v2]") fun t8 =>
-     let s := { s with v19 := t8 }
-     bindE (ph1 s) fun s => bindE (ph2 s) fun s => bindE (ph3 fuel s) fun s => ph4 s) := rfl
+    bindE (idxE s.p0 s.v2 "p0[v2]") fun c =>
+      bindE (ph1 (pre s c)) fun s => bindE (ph2 s) fun s => bindE (ph3 fuel s) fun s => ph4 s := rfl
 
 /-! ### phase 1: `lexByte` -/
 
@@ -416,7 +415,9 @@ theorem idxWE_last {α} (r : List α) (L : Nat) (h : r.length = L + 1) (site : S
 /-- `column_inds[col, row]` for a row number that is a natural -/
 theorem get2W_nat (inds : List (List Nat)) (col row cs : Nat) (site0 site : String)
     (h : get2 inds col row site0 = .ok cs) :
-    bindE (idxWE (ints2 inds) (col : Int) site) (fun t => idxWE t (row : Int) site) = .ok (cs : Int) := by
+    ∀ {β} (K : Int → Except Err β),
+      bindE (idxWE (ints2 inds) (col : Int) site) (fun t => bindE (idxWE t (row : Int) site) K) = K (cs : Int) := by
+  intro β K
   unfold get2 at h
   cases hr : inds[col]? with
   | none => simp [hr] at h
@@ -427,7 +428,9 @@ theorem get2W_nat (inds : List (List Nat)) (col row cs : Nat) (site0 site : Stri
 /-- `column_inds[col, -1]` (numpy wraps around): the last slot of the row, `maxrow` -/
 theorem get2W_neg (inds : List (List Nat)) (L col cs : Nat) (hrect : ∀ r ∈ inds, r.length = L + 1) (site0 site : String)
     (h : get2 inds col L site0 = .ok cs) :
-    bindE (idxWE (ints2 inds) (col : Int) site) (fun t => idxWE t (-1) site) = .ok (cs : Int) := by
+    ∀ {β} (K : Int → Except Err β),
+      bindE (idxWE (ints2 inds) (col : Int) site) (fun t => bindE (idxWE t (-1) site) K) = K (cs : Int) := by
+  intro β K
   unfold get2 at h
   cases hr : inds[col]? with
   | none => simp [hr] at h
@@ -447,10 +450,14 @@ theorem set2W (inds inds' : List (List Nat)) (col row v : Nat) (site0 site : Str
       rcases Nat.lt_or_ge col inds.length with hh | hh
       · exact hh
       · simp [List.getElem?_eq_none hh] at hr
+    have hr' : inds[col] = r := by
+      have := List.getElem?_eq_getElem hcol
+      rw [this] at hr; exact Option.some.inj hr
     by_cases hlt : row < r.length
     · simp only [hr, hlt, if_true, Except.ok.injEq] at h
       subst h
-      simp [setIdx2WE, idxWE_nat, setIdxWE_nat, getE, setE, List.getElem?_map, hr, hlt, hcol, List.map_set]
+      subst hr'
+      simp [setIdx2WE, idxWE_nat, setIdxWE_nat, getE, setE, List.getElem?_map, hlt, hcol, List.map_set]
     · simp [hr, hlt] at h
 
 theorem set2_rect (inds inds' : List (List Nat)) (L col row v : Nat) (site0 : String)
@@ -468,5 +475,134 @@ theorem set2_rect (inds inds' : List (List Nat)) (L col row v : Nat) (site0 : St
       · subst h1
         simpa using hrect r0 (List.mem_of_getElem? hr)
     · simp [hr, hlt] at h
+
+theorem ph3_cell (src : Bytes) (offs : List Nat) (L fuel : Nat) (hf : src.length ≤ fuel)
+    (inds inds' : List (List Nat)) (hdr : Bool) (row col cstart count index o o1 cs : Nat) (s : St)
+    (h8 : s.v8 = true) (h9 : s.v9 = false) (h5 : s.v5 = if hdr then (-1 : Int) else (row : Int)) (h4 : s.v4 = (col : Int))
+    (hp2 : s.p2 = ints2 inds) (h12 : s.v12 = (cstart : Int)) (h11 : s.v11 = (count : Int)) (hp4 : s.p4 = ints offs)
+    (h0 : s.p0 = ints src) (hp9 : s.p9 = ((WS : Nat) : Int)) (h2 : s.v2 = (index : Int))
+    (hrect : ∀ r ∈ inds, r.length = L + 1)
+    (hset : (if hdr then Except.ok inds else set2 inds col (row + 1) (cstart + count) "column_inds[col_index,row_index+1]") = .ok inds')
+    (ho : offs[col + 1]? = some o) (ho1 : offs[col + 1 + 1]? = some o1)
+    (hcs : get2 inds' (col + 1) (if hdr then L else row) "column_inds[col_index,row_index]" = .ok cs) :
+    ph3 fuel s = .ok { s with p2 := ints2 inds', v4 := ((col + 1 : Nat) : Int), v15 := (o : Int), v16 := (o1 : Int) - (o : Int),
+                              v12 := (cs : Int), v11 := 0, v2 := ((skipAfter src index : Nat) : Int),
+                              v17 := ((skipAfter src index : Nat) : Int) + 1 } := by
+  have hcast1 : ((col : Int) + 1) = ((col + 1 : Nat) : Int) := by omega
+  have hcast2 : (((col + 1 : Nat) : Int) + 1) = ((col + 1 + 1 : Nat) : Int) := by omega
+  have hv : ((cstart : Int) + (count : Int)) = ((cstart + count : Nat) : Int) := by omega
+  cases hdr with
+  | true =>
+    simp only [if_true] at hset h5 hcs
+    cases hset
+    have hneg : ¬ (s.v5 ≥ 0) := by rw [h5]; omega
+    unfold ph3
+    simp only [h8, if_true, hneg, decide_false, Bool.false_eq_true, if_false, bindE_ok]
+    simp only [h9, Bool.false_eq_true, if_false, h4, hcast1, hcast2, hp4,
+      idx_src offs (col + 1) o ho, idx_src offs (col + 1 + 1) o1 ho1, bindE_ok]
+    simp only [hp2, h5, get2W_neg inds L (col + 1) cs hrect _ _ hcs]
+    rw [skipAfter_loop src fuel index _ (by first | rfl | exact h0) (by first | rfl | exact hp9) (by first | rfl | exact h2) (by omega)]
+    simp only [bindE_ok]
+    try (cases s; simp_all)
+  | false =>
+    simp only [Bool.false_eq_true, if_false] at hset h5 hcs
+    have hpos : (s.v5 ≥ 0) := by rw [h5]; omega
+    have hcastr : ((row : Int) + 1) = ((row + 1 : Nat) : Int) := by omega
+    have hrect' := set2_rect inds inds' L col (row + 1) (cstart + count) _ hrect hset
+    unfold ph3
+    simp only [h8, if_true, hpos, decide_true]
+    simp only [hp2, h4, h5, hcastr, h12, h11, hv, set2W inds inds' col (row + 1) (cstart + count) _ _ hset, bindE_ok]
+    simp only [h9, Bool.false_eq_true, if_false, h4, hcast1, hcast2, hp4,
+      idx_src offs (col + 1) o ho, idx_src offs (col + 1 + 1) o1 ho1, bindE_ok]
+    simp only [h5, get2W_nat inds' (col + 1) row cs _ _ hcs]
+    rw [skipAfter_loop src fuel index _ (by first | rfl | exact h0) (by first | rfl | exact hp9) (by first | rfl | exact h2) (by omega)]
+    simp only [bindE_ok]
+    try (cases s; simp_all)
+
+theorem idx0 (offs : List Nat) (o : Nat) (h : offs[0]? = some o) (site : String) :
+    idxE (ints offs) 0 site = .ok (o : Int) := by simpa using idx_src offs 0 o h site
+
+theorem idx01 (offs : List Nat) (o1 : Nat) (h : offs[0 + 1]? = some o1) (site : String) :
+    idxE (ints offs) (0 + 1) site = .ok (o1 : Int) := by simpa using idx_src offs 1 o1 h site
+
+theorem get2W_nat0 (inds : List (List Nat)) (row cs : Nat) (site0 site : String)
+    (h : get2 inds 0 row site0 = .ok cs) :
+    ∀ {β} (K : Int → Except Err β),
+      bindE (idxWE (ints2 inds) 0 site) (fun t => bindE (idxWE t (row : Int) site) K) = K (cs : Int) := by
+  intro β K
+  simpa using get2W_nat inds 0 row cs site0 site h K
+
+theorem ph3_line (src : Bytes) (offs : List Nat) (L fuel : Nat) (hf : src.length ≤ fuel)
+    (inds inds' : List (List Nat)) (hdr : Bool) (row col cstart count index o o1 cs : Nat) (s : St)
+    (h8 : s.v8 = true) (h9 : s.v9 = true) (h5 : s.v5 = if hdr then (-1 : Int) else (row : Int)) (h4 : s.v4 = (col : Int))
+    (h1 : s.v1 = (L : Int))
+    (hp2 : s.p2 = ints2 inds) (h12 : s.v12 = (cstart : Int)) (h11 : s.v11 = (count : Int)) (hp4 : s.p4 = ints offs)
+    (h0 : s.p0 = ints src) (hp9 : s.p9 = ((WS : Nat) : Int)) (h2 : s.v2 = (index : Int))
+    (hset : (if hdr then Except.ok inds else set2 inds col (row + 1) (cstart + count) "column_inds[col_index,row_index+1]") = .ok inds')
+    (ho : offs[0]? = some o) (ho1 : offs[0 + 1]? = some o1)
+    (hcs : get2 inds' 0 (if hdr then 0 else row + 1) "column_inds[col_index,row_index]" = .ok cs) :
+    ph3 fuel s = .ok { s with p2 := ints2 inds', v5 := (((if hdr then 0 else row + 1 : Nat)) : Int), v4 := 0, v15 := (o : Int),
+                              v16 := (o1 : Int) - (o : Int), v13 := s.v13 || decide ((if hdr then 0 else row + 1) = L),
+                              v12 := (cs : Int), v11 := 0, v2 := ((skipAfter src index : Nat) : Int),
+                              v17 := ((skipAfter src index : Nat) : Int) + 1 } := by
+  have hv : ((cstart : Int) + (count : Int)) = ((cstart + count : Nat) : Int) := by omega
+  cases hdr with
+  | true =>
+    simp only [if_true] at hset h5 hcs ⊢
+    cases hset
+    have hneg : ¬ (s.v5 ≥ 0) := by rw [h5]; omega
+    have e0 : ((-1 : Int) + 1) = ((0 : Nat) : Int) := by omega
+    unfold ph3
+    simp only [h8, if_true, hneg, decide_false, Bool.false_eq_true, if_false, bindE_ok]
+    simp only [h9, if_true, hp4, idx0 offs o ho, idx01 offs o1 ho1, bindE_ok]
+    simp only [h5, h1, e0, beq_cast]
+    by_cases hL : 0 = L
+    · have hd : decide (0 = L) = true := by simp [hL]
+      simp only [hd, if_true, bindE_ok, hp2, get2W_nat0 inds 0 cs _ _ hcs]
+      rw [skipAfter_loop src fuel index _ (by first | rfl | exact h0) (by first | rfl | exact hp9) (by first | rfl | exact h2) (by omega)]
+      simp only [bindE_ok]
+      try (cases s; simp_all)
+    · have hd : decide (0 = L) = false := by simp [hL]
+      simp only [hd, Bool.false_eq_true, if_false, bindE_ok, hp2, get2W_nat0 inds 0 cs _ _ hcs]
+      rw [skipAfter_loop src fuel index _ (by first | rfl | exact h0) (by first | rfl | exact hp9) (by first | rfl | exact h2) (by omega)]
+      simp only [bindE_ok]
+      try (cases s; simp_all)
+  | false =>
+    simp only [Bool.false_eq_true, if_false] at hset h5 hcs ⊢
+    have hpos : (s.v5 ≥ 0) := by rw [h5]; omega
+    have hcastr : ((row : Int) + 1) = ((row + 1 : Nat) : Int) := by omega
+    unfold ph3
+    simp only [h8, if_true, hpos, decide_true]
+    simp only [hp2, h4, h5, hcastr, h12, h11, hv, set2W inds inds' col (row + 1) (cstart + count) _ _ hset, bindE_ok]
+    simp only [h9, if_true, hp4, idx0 offs o ho, idx01 offs o1 ho1, bindE_ok]
+    simp only [h5, h1, hcastr, beq_cast]
+    by_cases hL : row + 1 = L
+    · have hd : decide (row + 1 = L) = true := by simp [hL]
+      simp only [hd, if_true, bindE_ok, get2W_nat0 inds' (row + 1) cs _ _ hcs]
+      rw [skipAfter_loop src fuel index _ (by first | rfl | exact h0) (by first | rfl | exact hp9) (by first | rfl | exact h2) (by omega)]
+      simp only [bindE_ok]
+      try (cases s; simp_all)
+    · have hd : decide (row + 1 = L) = false := by simp [hL]
+      simp only [hd, Bool.false_eq_true, if_false, bindE_ok, get2W_nat0 inds' (row + 1) cs _ _ hcs]
+      rw [skipAfter_loop src fuel index _ (by first | rfl | exact h0) (by first | rfl | exact hp9) (by first | rfl | exact h2) (by omega)]
+      simp only [bindE_ok]
+      try (cases s; simp_all)
+
+theorem ph3_skip (fuel : Nat) (s : St) (h : s.v8 = false) : ph3 fuel s = .ok s := by
+  unfold ph3; simp [h]
+
+/-! ### phase 4: advance, test for the end of the call -/
+
+def fin (s : St) : St :=
+  if ((s.v2 + 1 == pyLen s.p0) || (s.v13 || s.v14)) then
+    { s with v2 := s.v2 + 1, v20 := s.v3 + 1, v21 := s.v5, ret := true, rv0 := s.v3 + 1, rv1 := s.v5, rv2 := s.v13, rv3 := s.v14,
+             rv4 := s.v6 }
+  else { s with v2 := s.v2 + 1 }
+
+theorem ph4_eq (s : St) : ph4 s = .ok (fin s) := by
+  unfold ph4 fin
+  by_cases h : ((s.v2 + 1 == pyLen s.p0) || (s.v13 || s.v14)) = true
+  · simp only [h, if_true]
+  · simp only [h, Bool.false_eq_true, if_false]
 
 end Exetera.GenK.CsvK
